@@ -68,7 +68,8 @@ MkMethod(c, mc, k) ==
      verbProps |-> IF "verbProps" \in DOMAIN mc THEN mc.verbProps ELSE "",
      \* rendering only: adjacent parameters of one type are declared as a Go identifier list - func (a, b, c string, d int) -
      \* (the documented / bound order is the signature order whichever way the author groups the names)
-     grouped |-> ("grouped" \in DOMAIN mc /\ mc.grouped)]
+     \* groups = <<3, 1>>: the first three names share one identifier list, the fourth stands alone; <<>> = one name per declaration
+     groups |-> IF "groups" \in DOMAIN mc THEN mc.groups ELSE <<>>]
 
 MethodsOfLast == IF proj.ctrls = <<>> THEN 0
                  ELSE Cardinality({i \in DOMAIN proj.methods : proj.methods[i].ctrl = proj.ctrls[Len(proj.ctrls)].id})
